@@ -163,7 +163,7 @@ def hostile_strings(rep, tier, seed):
     cfg = corpus._cfg("Gen_Xml_str.cfg", f'SPECIFICATION GSpec\nCONSTANT MaxStr = 0\nCONSTANT MaxKids = 0\nCONSTANT MaxLen = {n}\nCONSTANT Mode = "str"\nCONSTRAINT Emit\nCHECK_DEADLOCK FALSE\n')
     cases, r = tlc.generate("Gen_Xml", cfg, tag="genxmlstr", timeout=900)
     strs = [c["classes"] for c in cases if "classes" in c and c["classes"]]
-    rep.add_mc(r, f"Gen_Xml: every hostile class string of length <= {n} over 18 classes")
+    rep.add_mc(r, f"Gen_Xml: every hostile class string of length <= {n} over 22 classes")
     extra = []
     if tier == "quick":
         cfg3 = corpus._cfg("Gen_Xml_str3.cfg", 'SPECIFICATION GSpec\nCONSTANT MaxStr = 0\nCONSTANT MaxKids = 0\nCONSTANT MaxLen = 4\nCONSTANT Mode = "str"\nCONSTRAINT Emit\nCHECK_DEADLOCK FALSE\n')
